@@ -184,7 +184,17 @@ func main() {
 	// second chance for undecided obligations (machine load must not turn into an alarm): one retry with
 	// a three times longer limit; an obligation refuted with a model (sat) is not retried
 	var retry []*Obligation
+	knownEarly := loadKnown(filepath.Join(*verifDir, "known_findings.json"))
+	isKnownObl := map[string]bool{}
+	for _, k := range knownEarly.Findings {
+		if k.Property == *prop {
+			isKnownObl[k.Obligation] = true
+		}
+	}
 	for _, o := range sel {
+		if isKnownObl[o.Name] {
+			continue // a listed finding is expected to stay undecided or refuted: no second chance needed
+		}
 		if !o.Cover && (o.Result.Status == "unknown" || o.Result.Status == "timeout" || o.Result.Status == "error") {
 			retry = append(retry, o)
 		}
